@@ -18,11 +18,11 @@ cmd=$(echo "$cmd" | sed -e 's/^.*\(go test\)/\1/')
 demofile=$place/zz_seed_demo_test.go
 cp $sd/demo_test.go $demofile
 # 1. without the change the demo passes
-( $cmd ) > /tmp/confirm-$name-clean.log 2>&1; rc_clean=$?
+sh -c "$cmd" > /tmp/confirm-$name-clean.log 2>&1; rc_clean=$?
 # 2. with the change
 git apply $sd/patch.diff || { echo "patch does not apply"; exit 2; }
 go build ./... > /tmp/confirm-$name-build.log 2>&1; rc_build=$?
-( $cmd ) > /tmp/confirm-$name-seeded.log 2>&1; rc_seeded=$?
+sh -c "$cmd" > /tmp/confirm-$name-seeded.log 2>&1; rc_seeded=$?
 rm -f $demofile
 rc_suite=-1; failed=""
 if [ -z "$nosuite" ]; then
